@@ -835,6 +835,8 @@ bool Annotator::assignAllIds(ModelPtr &model)
         auto issue = Issue::IssueImpl::create();
         issue->mPimpl->setDescription("The Model supplied is a nullptr. No action has been taken.");
         issue->mPimpl->setReferenceRule(Issue::ReferenceRule::ANNOTATOR_NULL_MODEL);
+        issue->mPimpl->setLevel(Issue::Level::WARNING);
+        pFunc()->addIssue(issue);
         return false;
     }
     setModel(model);
